@@ -520,18 +520,22 @@ func init() {
 				{Pkg: pkgWatch, Func: "VerifC20Paths", Args: []int64{2, 0}, Timeout: 10 * time.Minute},
 				{Pkg: pkgWatch, Func: "VerifC20Events", Args: []int64{1}, Timeout: 10 * time.Minute},
 				{Pkg: pkgWatch, Func: "VerifC20Events", Args: []int64{2}, Timeout: 10 * time.Minute},
+				{Pkg: pkgWatch, Func: "VerifC20Loop", Args: []int64{1, 0}, Timeout: 10 * time.Minute},
+				{Pkg: pkgWatch, Func: "VerifC20Loop", Args: []int64{2, 0}, Timeout: 12 * time.Minute},
 			}
 			if tier == "thorough" {
-				js = append(js, &Job{Pkg: pkgWatch, Func: "VerifC20Events", Args: []int64{3}, Timeout: 30 * time.Minute})
+				js = append(js, &Job{Pkg: pkgWatch, Func: "VerifC20Events", Args: []int64{3}, Timeout: 30 * time.Minute},
+					&Job{Pkg: pkgWatch, Func: "VerifC20Loop", Args: []int64{1, 1}, Timeout: 90 * time.Minute})
 			}
 			return js
 		},
-		Covers: []string{"C20.paths-checked", "C20.some-path-observed", "C20.handler-returned", "C20.unsubscribed-event"},
+		Covers: []string{"C20.paths-checked", "C20.some-path-observed", "C20.handler-returned", "C20.unsubscribed-event", "C20.subscribed-event", "C20.loop-checked", "C20.loop.subscribed-event"},
 		Bounds: map[string]interface{}{
-			"quick":    "selection: up to 2 include and 2 exclude patterns over 3 candidate paths with the whole pattern x path match relation symbolic (512 relations per shape, decided per path by the solver); events: every subset of the five event names subscribed (none = all), 1..2 events of symbolic type handled by the real handler with the real TaskRunner (executor stubbed)",
-			"thorough": "3 events",
+			"quick":    "selection: up to 2 include and 2 exclude patterns over 3 candidate paths with the whole pattern x path match relation symbolic (512 relations per shape, decided per path by the solver); events: every subset of the five event names subscribed (none = all), 1..2 events of symbolic type handled by the real handler with the real TaskRunner (executor stubbed); the real Watcher.Run (registration of the selected paths, first run, polling loop, handler goroutines, Close) in thread mode with 1..2 events of symbolic type delivered through the fsnotify channel while earlier runs may still be in flight (commands that take time), preemption bound 0 (threads switch where they block, sleep or a command is running)",
+			"thorough": "3 events for the handler; the loop with 1 event and preemption bound 1 (about 1.2 million schedules x inputs)",
 		},
-		Outside:     []string{"doublestar's pattern semantics and the file-system walk (Glob / PathMatch are replaced by the symbolic relation)", "fsnotify / inotify delivery, combined Op bit-masks, the polling loop of Watcher.Run and Close", "while the open finding exists, what a subscribed event's task execution sees (EventName / EventPath) cannot be observed"},
-		Assumptions: []string{"stubs: doublestar.Glob / PathMatch, fsnotify.NewWatcher, executor"},
-		Replay:      map[string]*ReplaySpec{"*": {PkgDir: "internal/watch", File: "C20_replay_test.go", Test: "TestVerifReplayC20"}}})
+		Outside:     []string{"doublestar's pattern semantics and the file-system walk (Glob / PathMatch are replaced by the symbolic relation)", "fsnotify / inotify delivery, combined Op bit-masks", "more than 2 events in the loop harness; schedules of the loop with more than one preemption"},
+		Assumptions: []string{"stubs: doublestar.Glob / PathMatch, fsnotify.NewWatcher / Add / Close (Close closes both channels, as the real one does), executor (in the loop harness a command starts, yields, and is interrupted when its context was cancelled meanwhile)", "time.Sleep: the engine's polling semantics (a poller runs again when something changed or nothing else can run; pollers take turns)"},
+		Replay: map[string]*ReplaySpec{"*": {PkgDir: "internal/watch", File: "C20_replay_test.go", Test: "TestVerifReplayC20"},
+			"VerifC20Loop": {PkgDir: "internal/watch", File: "C20_replay_test.go", Test: "TestVerifReplayC20Loop"}}})
 }
